@@ -57,3 +57,19 @@ CHECKS = {
          'time in TLC; client-side cache TTL expiry abstracted away (it only causes additional reads). A reconnect makes the client drop '
          'its id and delete its liveness key, so a second loader after a holder\'s reconnect is by design and excused.'),
 }
+
+# round 2 (aside2): appended to the C39 entry
+from importlib import util as _u
+import os as _os
+_C39_TEXT_APPEND = (
+    ' Round 2: callers (goroutines) mapped to clients share c.id, c.waits, cache and connection; the registration of the client id '
+    'is its own pair of steps (Keepalive writes a fresh id, KaAdopt makes it c.id or adopts the winner\'s), the refresh serves c.id '
+    'only, an id nobody refreshes expires without excusing its holder: LockNamesRefreshedId (negatives BugNoAdopt). Gets without a '
+    'loader at every state of the key (BeginNil; negative BugNilFastPath). Release of a dead holder\'s lock by two waiters (negative '
+    'BugStealPlainDel, three clients). Binding: gates on the server double force "two callers register at once" and "two waiters saw '
+    'the marker gone before either released"; a slow server clock tells a missing refresh from a late one; AsideTrace.tla checks '
+    'LockNamesRefreshedId and HolderMarkerKeptAlive; DELs of cache keys that no user asked for are judged by what they remove (LibDel).')
+_C39_NOTE_APPEND = (
+    ' Round 2: LockNamesRefreshedId / HolderMarkerKeptAlive are evaluated in single-connection scenarios only (the default client '
+    'has four connections and resets c.id once per lost connection, which the server cannot observe) and must reproduce in a re-run.')
+CHECKS['C39'] = dict(CHECKS['C39'], text=CHECKS['C39']['text'] + _C39_TEXT_APPEND, note=CHECKS['C39'].get('note', '') + _C39_NOTE_APPEND)
